@@ -97,19 +97,22 @@ def execute(req):
                 m = _std_mesh(req["cls"])
                 bc = P.BoundaryConditions(m)
                 via = req["via"]
-                if via in ("ctor", "bcterm"):
+                pre = not via.endswith("_noprecalc")
+                if via in ("ctor", "bcterm", "ctor_noprecalc"):
                     for s in req["sides"]:
                         getattr(bc, s).periodic = True
-                    if via == "ctor":
-                        P.CellVariable(m, 1.0, bc)
-                    else:
+                    if via == "bcterm":
                         P.boundaryConditionsTerm(bc)
+                    else:
+                        P.CellVariable(m, 1.0, bc, BCsTerm_precalc=pre)
                 else:
-                    v = P.CellVariable(m, 1.0, bc)
+                    v = P.CellVariable(m, 1.0, bc, BCsTerm_precalc=pre)
                     for s in req["sides"]:
                         getattr(bc, s).periodic = True
-                    if via == "apply_BCs":
+                    if via.startswith("apply"):
                         v.apply_BCs()
+                    elif via.startswith("explicit"):
+                        P.solveExplicitPDE(v, 0.1, np.zeros(v._value.size))
                     else:
                         P.solvePDE(v, [P.linearSourceTerm(P.CellVariable(m, 1.0)),
                                        P.constantSourceTerm(P.CellVariable(m, 2.0))])
